@@ -440,6 +440,10 @@ func verifC03Users(r *verifutil.Rand) []string {
 }
 
 func verifC03Gen(r *verifutil.Rand, i int, thorough bool) []string {
+	if i%50 == 7 { // HLS: a session authorized on one path must not open another path
+		verifC03JWTSet(nil)
+		return verifC03PGenCross(r)
+	}
 	cs := verifC03GenConfs(r)
 	us := verifC03Users(r)
 	var toks []string
